@@ -51,7 +51,7 @@ func init() {
 	})
 	core.Register(&core.Spec{
 		ID: "C14", Engine: "node",
-		Run:       modelRun(nodeCfg{updW: 3, scrapeW: 12, restartW: 1, advW: 2, minOps: 4, maxOps: 40, failW: 3}),
+		Run:       modelRun(nodeCfg{updW: 3, scrapeW: 12, restartW: 1, advW: 2, overlapW: 2, minOps: 4, maxOps: 40, failW: 3}),
 		QuickRuns: 6000, ThorRuns: 300000, QuickCap: 60 * time.Second, ThorCap: 12 * time.Minute,
 		Rule: "a run is a drawn sequence of 4-40 operations on one real sidecar, mostly scrapes through the real proxy of payloads built from a drawn list of (metric name, label set) samples (so total and kept counts under the job's metric relabel rules are known by construction; kept = Prometheus' own relabel.Process per sample), with failures, several targets and jobs, updates and restarts; after every operation /status/, /runtimeinfo/ and /samples/?with_metrics_detail are compared with the model (series = floor(mean of last <=3 successful kept counts), total = last success, process = sum of totals, head = max(prometheus head, sum of series)); a case is (operation kinds mixed) x (final entry classes) x idle?",
 		Real: realNode, Stub: stubNode,
@@ -59,7 +59,7 @@ func init() {
 	})
 	core.Register(&core.Spec{
 		ID: "C10", Engine: "node",
-		Run:       modelRun(nodeCfg{updW: 8, scrapeW: 6, restartW: 2, advW: 2, minOps: 3, maxOps: 30, failW: 4}),
+		Run:       modelRun(nodeCfg{updW: 8, scrapeW: 6, restartW: 2, advW: 2, overlapW: 2, minOps: 3, maxOps: 30, failW: 4}),
 		QuickRuns: 6000, ThorRuns: 300000, QuickCap: 60 * time.Second, ThorCap: 12 * time.Minute,
 		Rule: "a run is a drawn sequence of 3-30 operations on one real sidecar (target updates over 6 hashes x 3 jobs with adds/removals/state flips/repeats/empty/job moves, scrapes with drawn outcome through the real proxy, restarts from the store directory, fake-clock advances) with the real GET status / runtimeinfo answers compared with a reference model after every operation; a case is (set of operation kinds mixed) x (multiset of final entry classes state/health/scrape-class) x idle?; trivial = fewer than two kinds of operation",
 		Real: realNode, Stub: stubNode,
